@@ -1,4 +1,4 @@
-"""C36 — dispersive cells follow their recurrence; zero-coefficient cells are non-dispersive (boundedness: not decided here)."""
+"""C36 — dispersive cells follow their recurrence; zero-coefficient cells are non-dispersive; accepted passive media lie inside the coupled stability limit."""
 
 from __future__ import annotations
 
@@ -24,8 +24,14 @@ EXPLANATION = (
     "with all coefficients zero and zero stored polarisation the step equals, component by component, the "
     "non-dispersive step of the same material (every conductivity case) and leaves the polarisation zero; the "
     "full-tensor kernel with dispersion reduces in the same way.  Clause 2 (accepted passive media stay bounded for "
-    "10^4 steps) is a statement about the trajectory and is not decided; what static analysis contributes to it is "
-    "the acceptance side, decided here with C35's rules: both coefficient routines raise exactly when a coupled axis "
+    "10^4 steps) is a statement about the trajectory; what is decided is its acceptance side: (a) the coupled "
+    "field / polarisation stability limit — from the verified recurrence the characteristic quartic of one Fourier "
+    "mode satisfies D Q(-1) = 4 (4 - w0^2 dt^2 - inv_eps a dt^2) - kappa (4 - w0^2 dt^2); placement's screening "
+    "function returns exactly the pair (sum_p a_p dt^2 / (eps_inf (4 - w0_p^2 dt^2)), 1 - (d/3) S^2 / (eps_inf mu)) "
+    "whose order is the sign of Q(-1) at the largest curl eigenvalue, warns iff lhs > rhs, and is run by "
+    "_init_arrays for every dispersive simulation with the simulation's time step and Courant factor; an exact "
+    "Schur-Cohn reduction at 1536 rational points confirms all roots inside the unit circle within the limit and "
+    "Q(-1) < 0 beyond it; (b) with C35's rules: both coefficient routines raise exactly when a coupled axis "
     "has omega_0 dt >= 2 (every path of the guard enumerated, per axis), the Jury margins of z^2 - c1 z - c2 are then "
     "non-negative, placement obtains its coefficient arrays only from those routines — and this check's identity, "
     "which shows that what is iterated is that recurrence."
@@ -265,8 +271,211 @@ def _painting_siblings(ctx):
     ctx.ob("R36.5", "fdtdx.fdtd.initialization:pole-coefficient painting", not bad and n_groups >= 2, "in every placement loop the statements that paint dispersive_c1 .. c4 have one and the same form up to the coefficient's digit (temporaries inlined): all four are overwritten inside the object's mask, none is accumulated", bad[:3], f"{n_groups} groups, one form each")
 
 
+# ------------------------------------------------------------------ coupled field / polarisation stability limit
+def _schur_stable(coefs):
+    """exact Schur-Cohn / Jury reduction: every root of sum coefs[k] z^k (rational coefficients) lies strictly inside
+    the unit circle"""
+    from fractions import Fraction
+
+    a = [Fraction(c) for c in coefs]
+    while len(a) > 1 and a[-1] == 0:
+        a.pop()
+    while len(a) > 1:
+        a0, an = a[0], a[-1]
+        if not abs(a0) < abs(an):
+            return False
+        rev = a[::-1]
+        b = [an * x - a0 * y for x, y in zip(a, rev)]  # b[0] == 0
+        a = b[1:]
+    return True
+
+
+def _quartic(c1, c2, c3, alpha, kappa):
+    """coefficients (ascending) of Q(z) = (z-1)^2 (z^2 - (c1 - alpha c3) z - c2) + kappa z (z^2 - c1 z - c2): the
+    characteristic polynomial of one Fourier mode of the step R36.1 describes (P' = c1 P + c2 P_prev + c3 E,
+    E' = E + alpha (c curl H - (P' - P)), H' = H - c inv_mu curl E') with kappa = alpha inv_mu c^2 |curl symbol|^2"""
+    q1 = [-c2, -(c1 - alpha * c3), 1]
+    q2 = [-c2, -c1, 1]
+    sq = [1, -2, 1]
+    out = [0] * 5
+    for i, x in enumerate(sq):
+        for j, y in enumerate(q1):
+            out[i + j] = out[i + j] + x * y
+    for j, y in enumerate(q2):
+        out[j + 1] = out[j + 1] + kappa * y
+    return out
+
+
+def _coupled_stability(ctx):
+    """Clause 2, acceptance side: a passive Lorentz / Drude medium that placement accepts without error or warning lies
+    inside the stability region of the coupled recurrence at the grid's shortest wavelength."""
+    import ast
+    from fractions import Fraction as Fr
+
+    from ..harness import stub_repo_calls
+    from ..values import Builtin
+    from . import c35
+
+    ix = ctx.index
+    DT = c35.DT
+    F = c35._forms("x")  # the coefficient formulas, confirmed against the code by R35.1 / R36.3
+    w, g, a, D = F["w"], F["g"], F["a"], F["D"]
+    c1, c2 = F["c1"], F["c2"]
+    c3 = a * DT * DT / D  # Lorentz / Drude: no dE/dt coupling
+    ie, kappa = Rat.atom("ie"), Rat.atom("kappa")
+    Q = _quartic(c1, c2, c3, ie, kappa)
+    Qm1 = sum(((-1) ** k * to_rat(c) for k, c in enumerate(Q)), Rat.const(0))
+    margin = 4 * (4 - w * w * DT * DT - ie * a * DT * DT) - kappa * (4 - w * w * DT * DT)
+    ctx.ob("R36.6", "coupled-recurrence:z=-1 margin", (Qm1 * D).equals(margin), "for the characteristic quartic of one Fourier mode of the verified step, D Q(-1) = 4 (4 - w0^2 dt^2 - inv_eps a dt^2) - kappa (4 - w0^2 dt^2), independent of the damping: a negative value puts a real root below -1 (Q -> +inf at -inf), i.e. exponential growth of the shortest wavelength", (Qm1 * D).fmt()[:200], margin.fmt()[:200])
+    # courant_number^2 = courant_factor^2 / 3 (kappa_max = 4 d c^2 inv_eps inv_mu over d active axes)
+    it = ctx.fresh_interp()
+    cn = it.call_method(Obj(ix.cls("fdtdx.config.SimulationConfig"), dict(courant_factor=Rat.atom("S")), "config"), "courant_number") if False else None
+    cfg_cls = ix.cls("fdtdx.config.SimulationConfig")
+    prop = cfg_cls.lookup_method("courant_number")
+    ctx.unit(prop.where())
+    cn = it.getattr(Obj(cfg_cls, dict(courant_factor=Rat.atom("S")), "config"), "courant_number")
+    from ..poly import normalise_sqrt
+
+    ok_cn = normalise_sqrt(to_rat(cn) * to_rat(cn) * 3 - Rat.atom("S") * Rat.atom("S")).is_zero()
+    ctx.ob("R36.6", "SimulationConfig.courant_number", ok_cn, "courant_number^2 = courant_factor^2 / 3, so the largest curl-curl eigenvalue seen by a cell is kappa_max = (4 d / 3) S^2 inv_eps inv_mu over d axes with more than one cell", to_rat(cn).fmt(), "S / sqrt 3")
+
+    # the screening function
+    try:
+        fm = ix.function("fdtdx.materials._coupled_stability_margin")
+        fv = ix.function("fdtdx.materials.validate_dispersive_coupled_stability")
+    except Exception:
+        fm = fv = None
+    witness = "e.g. a Drude pole with omega_p dt = 1/2, eps_inf = mu = 1, courant_factor 99/100, d = 3: D Q(-1) = 4 (4 - 1/4) - (4 * 9801/10000) * 4 = -0.68 < 0"
+    if fm is None or fv is None:
+        ctx.ob("R36.6", "placement:coupled-stability screening", False, "placement screens Lorentz / Drude materials against the stability limit of the explicit polarisation coupling; without it media are accepted silently whose shortest wavelength grows without bound — " + witness, "no screening function", "warning when lhs > rhs")
+        return
+    ctx.unit(fm.where())
+    ctx.unit(fv.where())
+    P = ix.cls("fdtdx.dispersion.Pole")
+    eps, mu, S, d = Rat.atom("eps"), Rat.atom("mu"), Rat.atom("S"), Rat.atom("d")
+    npoles = 2
+    poles = [Obj(P, dict(omega_0_axes=(Rat.atom(f"w{i}"),) * 3, coupling_sq_axes=(Rat.atom(f"a{i}"),) * 3, coupling_edot_axes=(0, 0, 0), gamma_axes=(Rat.atom(f"g{i}"),) * 3, is_oriented=False, orientation=None), f"pole{i}") for i in range(npoles)]
+    z9 = lambda v: (v, 0, 0, 0, v, 0, 0, 0, v)
+    mat = Obj(ix.cls("fdtdx.materials.Material"), dict(permittivity=z9(eps), permeability=z9(mu), dispersion=Obj(None, dict(poles=tuple(poles), is_isotropic=True), "dispersion"), is_all_isotropic=True), "material")
+    outs = []
+    it = ctx.fresh_interp()
+    it.ext_overrides["min"] = lambda it_, a_, k_: a_[0] if all(to_rat(x).equals(to_rat(a_[0])) for x in a_) else NotImplemented
+    for path, out in it.explore(lambda: it.call(it.closure_of(fm), [mat, DT, S, d], {})):
+        if out[0] != "ok":
+            raise AnalysisError(f"_coupled_stability_margin raises on a symbolic isotropic material: {out[1]}")
+        t = c35._path_truth(path)
+        outs.append((t, out[1]))
+    # the path on which every pole couples (a_i != 0)
+    full = [o for t, o in outs if all(v is False for k, v in t.items() if "eq" in repr(k)) or len(outs) == 1]
+    want_l = sum((Rat.atom(f"a{i}") * DT * DT / (eps * (4 - Rat.atom(f"w{i}") * Rat.atom(f"w{i}") * DT * DT)) for i in range(npoles)), Rat.const(0))
+    want_r = 1 - (d / 3) * S * S / (eps * mu)
+    good = [o for o in (x[1] for x in outs) if isinstance(o, tuple) and len(o) == 3 and to_rat(o[0]).equals(want_l) and to_rat(o[1]).equals(want_r)]
+    ctx.ob("R36.6", "fdtdx.materials._coupled_stability_margin", len(good) >= 1, "for a material with several poles the margin function returns lhs = sum_p a_p dt^2 / (eps_inf (4 - w0_p^2 dt^2)) and rhs = 1 - (d/3) S^2 / (eps_inf mu) on the path where every pole couples", [(to_rat(o[1][0]).fmt()[:120], to_rat(o[1][1]).fmt()[:120]) for o in outs[:2]], (want_l.fmt()[:120], want_r.fmt()))
+    # criterion <=> sign of the z = -1 margin at kappa_max (one pole; the sum over poles enters Q(-1) additively)
+    l1 = a * DT * DT / (eps * (4 - w * w * DT * DT))
+    km = (4 * d / 3) * S * S / (eps * mu)
+    m_at = margin.subs({"ie": 1 / eps, "kappa": km})
+    ctx.ob("R36.6", "criterion == z=-1 margin at kappa_max", m_at.equals(4 * (4 - w * w * DT * DT) * (want_r - l1)), "D Q(-1) at the largest curl-curl eigenvalue equals 4 (4 - w0^2 dt^2) (rhs - lhs); 4 - w0^2 dt^2 > 0 is the guard of R36.3, so lhs > rhs is exactly Q(-1) < 0", m_at.fmt()[:160], "4 (4 - w0^2 dt^2) (rhs - lhs)")
+    # the validator warns exactly when lhs > rhs
+    it = ctx.fresh_interp()
+    calls, warned = [], []
+
+    def margin_stub(it_, a_, k_, _c=calls):
+        _c.append(1)
+        return (Rat.atom("LHS"), Rat.atom("RHS"), 0) if len(_c) == 1 else (0, 1, 0)
+
+    stub_repo_calls(it, {"_coupled_stability_margin": margin_stub})
+    it.ext_overrides["warnings.warn"] = lambda it_, a_, k_, _w=warned: _w.append(a_[0] if a_ else None)
+    it.ext_overrides["math.log10"] = lambda it_, a_, k_: 0
+    it.ext_overrides["math.floor"] = lambda it_, a_, k_: 0
+    disp = Obj(None, dict(poles=tuple(poles), is_isotropic=True), "dispersion")
+    mats = {"slab": Obj(ix.cls("fdtdx.materials.Material"), dict(dispersion=disp, is_all_isotropic=True), "material"), "plain": Obj(ix.cls("fdtdx.materials.Material"), dict(dispersion=None), "plain")}
+    verdicts = []
+    for path, out in it.explore(lambda: (warned.clear(), calls.clear(), it.call(it.closure_of(fv), [mats, DT, Fr(99, 100)], {}), list(warned))[-1]):
+        if out[0] != "ok":
+            raise AnalysisError(f"validate_dispersive_coupled_stability raises: {out[1]}")
+        verdicts.append((len(path), len(out[1])))
+    one_decision = sorted(verdicts) == [(1, 0), (1, 1)]
+    direction = {}
+    for tag, pair in (("beyond", (2, 1)), ("at the limit", (1, 1)), ("inside", (1, 2))):
+        it = ctx.fresh_interp()
+        calls2, warned2 = [], []
+        stub_repo_calls(it, {"_coupled_stability_margin": lambda it_, a_, k_, _c=calls2, _p=pair: (_c.append(1), ((_p[0], _p[1], 0) if len(_c) == 1 else (0, 1, 0)))[1]})
+        it.ext_overrides["warnings.warn"] = lambda it_, a_, k_, _w=warned2: _w.append(1)
+        it.ext_overrides["math.log10"] = lambda it_, a_, k_: 0
+        it.ext_overrides["math.floor"] = lambda it_, a_, k_: 0
+        try:
+            it.call(it.closure_of(fv), [mats, DT, Fr(99, 100)], {})
+        except Raised as r:
+            raise AnalysisError(f"validate_dispersive_coupled_stability raises: {r}")
+        direction[tag] = len(warned2)
+    ctx.ob("R36.6", "validate_dispersive_coupled_stability:warns-iff-beyond", one_decision and direction == {"beyond": 1, "at the limit": 0, "inside": 0}, "the validator's outcome depends on exactly one comparison of the margin pair: one warning when lhs > rhs, silence when lhs <= rhs; materials without dispersion are skipped", dict(paths=verdicts, direction=direction), "one decision; warn iff lhs > rhs")
+    # wiring: _init_arrays calls the validator for every simulation with dispersive poles
+    fi = ix.function("fdtdx.fdtd.initialization._init_arrays")
+    site = None
+    for st in fi.node.body:
+        for node in ast.walk(st):
+            if isinstance(node, ast.Call) and ast.unparse(node.func).split(".")[-1] == "validate_dispersive_coupled_stability":
+                site = (st, node)
+    okw, detail = False, "no call"
+    if site is not None:
+        st, node = site
+        kw = {k.arg: ast.unparse(k.value) for k in node.keywords}
+        cond = ast.unparse(st.test) if isinstance(st, ast.If) else "unconditional"
+        it = ctx.fresh_interp()
+        if isinstance(st, ast.If):
+            from .. import absint
+
+            tv = []
+            for n_p in (0, 1, 3):
+                env = absint.Env(parent=it.module_env(ix.module("fdtdx.fdtd.initialization")), vars={"num_dispersive_poles": n_p})
+                tv.append(bool(it.eval(st.test, env)))
+            cond_ok = tv == [False, True, True] or tv == [True, True, True]
+        else:
+            cond_ok = True
+        okw = cond_ok and kw.get("dt") == "config.time_step_duration" and kw.get("courant_factor") == "config.courant_factor" and "_collect_labeled_materials(objects)" in [ast.unparse(x) for x in node.args] + list(kw.values())
+        detail = dict(condition=cond, kwargs=kw)
+    ctx.ob("R36.6", "_init_arrays:coupled-stability screening", okw, "placement runs the screening on every labelled material whenever the simulation has dispersive poles, with the simulation's own time step and Courant factor — " + ("" if okw else witness), detail, "validate_dispersive_coupled_stability(_collect_labeled_materials(objects), dt=config.time_step_duration, courant_factor=config.courant_factor, ...)")
+    # the active-axes argument counts the axes with more than one cell
+    if site is not None:
+        naa = {k.arg: k.value for k in site[1].keywords}.get("num_active_axes")
+        if naa is not None:
+            from .. import absint
+
+            vals = {}
+            for shp in ((8, 8, 8), (8, 8, 1), (1, 5, 1), (1, 1, 1), (2, 1, 2)):
+                env = absint.Env(parent=it.module_env(ix.module("fdtdx.fdtd.initialization")), vars={"volume_shape": shp})
+                vals[shp] = it.eval(naa, env)
+            ctx.ob("R36.6", "_init_arrays:active-axes", all(int(v) == sum(1 for n in shp if n > 1) for shp, v in vals.items()), "d passed to the screening is the number of grid axes with more than one cell (a shortest wavelength exists only along those)", vals, "count of axes with n > 1")
+    # exact root location at rational sample points on both sides of the limit (Schur-Cohn reduction on Q)
+    bad, n = [], 0
+    for wd, gd, S_, eps_, dd in itertools.product((Fr(0), Fr(1, 2), Fr(1), Fr(19, 10)), (Fr(1, 100), Fr(1, 2)), (Fr(1, 2), Fr(9, 10), Fr(99, 100)), (Fr(1), Fr(2)), (3, 2)):
+        rhs = 1 - Fr(dd, 3) * S_ * S_ / eps_
+        kmax = Fr(4 * dd, 3) * S_ * S_ / eps_
+        for ratio in (Fr(1, 2), Fr(19, 20), Fr(21, 20), Fr(2)):
+            A = ratio * rhs * eps_ * (4 - wd * wd)  # a dt^2 with lhs = ratio * rhs
+            Dv = 1 + gd / 2
+            c1v, c2v, c3v = (2 - wd * wd) / Dv, -(1 - gd / 2) / Dv, A / Dv
+            for frac in (Fr(1, 4), Fr(1, 2), Fr(3, 4), Fr(1)):
+                q = _quartic(c1v, c2v, c3v, 1 / eps_, frac * kmax)
+                n += 1
+                if sum(q) == 0:  # Drude: z = 1 is a simple root (a constant polarisation offset); deflate it
+                    d_, acc = [], Fr(0)
+                    for c in reversed(q):
+                        acc = acc + c
+                        d_.append(acc)
+                    q = list(reversed(d_[:-1]))
+                if ratio < 1 and not _schur_stable(q):
+                    bad.append(("inside the limit but a root on or outside the unit circle", str(wd), str(gd), str(S_), str(eps_), dd, str(ratio), str(frac)))
+            qm = sum((-1) ** k * c for k, c in enumerate(_quartic(c1v, c2v, c3v, 1 / eps_, kmax)))
+            if ratio > 1 and not qm < 0:
+                bad.append(("beyond the limit but Q(-1) >= 0", str(wd), str(gd), str(S_), str(eps_), dd, str(ratio)))
+    ctx.ob("R36.6", "coupled-recurrence:root location at sample points", not bad and n >= 1000, f"exact Schur-Cohn reduction of the quartic at {n} rational points (resonance, damping, Courant factor, eps_inf, dimension, coupling at 1/2, 19/20, 21/20 and 2 times the limit, four curl eigenvalues up to the largest): inside the limit every root lies strictly inside the unit circle, beyond it Q(-1) < 0", bad[:3], "stable inside, unstable beyond")
+
+
 def run(ctx):
     _recurrence(ctx)
+    _coupled_stability(ctx)
     _zero_coefficients(ctx)
     _acceptance(ctx)
     _tier_selection(ctx)
